@@ -372,10 +372,17 @@ def units(tier, seed):
         out.append(("named", {"names": names[i::8], "examples": 70 if q else 1500, "fresh": i % 4 == 0}))
     # toy prime-order curves through the same generic path (cheap, many cases)
     out.append(("toy-named", {"names": ["t13", "t23a", "t251a", "t1021a", "t65521b"], "examples": 1500 if q else 30000}))
+    for i in range(3):
+        out.append(("history", {"curve": ("t13", "t23a", "t13")[i], "examples": 150 if tier == "quick" else 4000, "steps": 40, "label": "h%d" % i}))
     return out
 
 
 def run_unit(ctx, name, **kw):
+    if name == "history":
+        # histories over live point objects (cached / in-place state, failed operations): the C19 machine
+        from . import c19
+        c19.run_unit(ctx, "machine", **kw)
+        return
     if name == "mul-sweep":
         for c in kw["curves"]:
             sweep_mul(ctx, tuple(c), kw["reps"])
@@ -396,6 +403,9 @@ def run_unit(ctx, name, **kw):
 
 
 def replay(ctx, case):
+    if case.get("kind") == "history":
+        from . import c19
+        return c19.replay(ctx, case)
     k = case["kind"]
     t = lambda v: None if v is None else tuple(v)
     if k == "mul":
